@@ -977,7 +977,7 @@ class Walker:
                 saved = len(self.dev)
                 try:
                     a = self.attribute(obj, owner)
-                except SpecError:
+                except (SpecError, Unsupported, IndexError):
                     del self.dev[saved:]
                     return None
                 if lookup3(a["name"]) != hv:
@@ -1139,8 +1139,10 @@ class Walker:
         for a, nd in self.objects.items():
             if "error" in nd:
                 continue
-            if nd.get("refcount", 1) != self.linkcount.get(a, 0):
-                self.errors.append("%s: object reference count %d but %d hard link(s) lead to it" % (nd["path"], nd.get("refcount"), self.linkcount.get(a, 0)))
+            rc, lc = nd.get("refcount", 1), self.linkcount.get(a, 0)
+            if rc != lc:
+                self.deviate("refcount-too-high" if rc > lc else "refcount-too-low", "%s@%d" % (nd["path"], a),
+                             "object reference count %d but %d hard link(s) lead to the object" % (rc, lc))
         # full-capacity regions of fixed-size nodes
         hard = sorted(self.extents)
         for s, e, kind, owner, tag in self.soft:
